@@ -27,6 +27,19 @@
       no disable_recursion_limit, no unbounded_depth feature).
 Not decided: stack consumption of 128 nested evaluator frames; panics inside
 dependency functions classified total by reading.
+
+The justifications are stated on what a value *is*, not on how the code around it is spelled (rules/panic.py):
+  index        length interval of the indexed view (operand list by arity; item of chunks_exact(n)/windows(n)/chunks(n);
+               remainder) refined by the length tests that dominate the site
+  counter      a 64-bit storage (local, fold accumulator, struct field) only ever set to a small constant or stepped by one
+  a - b        intervals from the comparisons that hold on every path to the site (core.implied_comparisons), through |x|
+  radix        value sets through constructors, phis, captures, call sites and the return values of private functions
+  str slicing  every bound is an offset of the sliced string itself (0, len, a search position, a constant behind ASCII)
+  loop         the type of the value whose next() drives it is a finite iterator (adaptors, &mut I, type parameters
+               resolved at every call site of the private function)
+  recursion    size-change graph over tree-carrying parameters / variant-transition graph with kinds read from
+               constructors and kind predicates decided per combination / provenance (C04) for the evaluator cycle,
+               re-read on the helper-inlined view of the operators concerned when the path-insensitive reading is dirty
 """
 import json, os, re, subprocess
 from collections import defaultdict
@@ -278,7 +291,7 @@ def run(ctx):
 
         # ---------------- K2 recursion
         if is_lib and prof == "debug":
-            recursion(ctx, facts, roles, reach, extra, tag)
+            recursion(ctx, facts, roles, reach, extra, tag, ctx.fact_paths.get((cfg, crate, prof)))
 
         # ---------------- K3 boundary
         if crate == "jsonlogic":
@@ -364,7 +377,43 @@ def serde_json_features():
 
 
 # ------------------------------------------------------------------ recursion
-def recursion(ctx, facts, roles, reach, extra, tag):
+def evaluator_sinks(ctx, facts, roles, fact_path):
+    """S1 results for the descent witness of the evaluator cycle.  The provenance analysis joins the call sites of a
+    helper and the paths inside it; when an operator's code was split into private helpers (the flag that guards a parse
+    computed in one, the parse done in another) a sink can stay dirty although no run reaches it with anything but
+    rule text.  The sinks that stay dirty are therefore read once more on the view of the program in which the private
+    helpers of the operators concerned stand at their call sites (rules/inline.py: behaviour-preserving, with jump
+    threading) — one more reading of the same clause on the same program, not a different clause."""
+    s1 = P.analyse(roles)[1]
+    dirty = [s for s, v, how in s1 if v == "dirty"]
+    if not dirty or ctx.inline_set or not fact_path:
+        return s1, ""
+    try:
+        from . import inline
+        from .opfacts import Unit
+        cands = set(inline.candidates(fact_path))
+        helpers = set()
+        roots = set()
+        for s_ in dirty:
+            k = s_.body.key
+            while "::{closure#" in k:
+                k = k.rsplit("::{closure#", 1)[0]
+            roots.add(k)
+        for fk in sorted(roles.op_fns):
+            keys = Unit(roles, fk, extended=True).keys
+            if keys & roots:
+                helpers |= keys & cands
+        if not helpers:
+            return s1, ""
+        vf = inline.load_view(fact_path, sorted(helpers))
+        vs1 = P.analyse(Roles(vf))[1]
+    except Exception as e:          # the view could not be built or read: the reading on the program as written stands
+        ctx.notes.append("helper-inlined view for the evaluator cycle could not be read (%s: %s)" % (type(e).__name__, e))
+        return s1, ""
+    return vs1, " — read on the view with the operators' private helpers %s inlined at their call sites (on the program as written %d sink(s) stayed undecided by the path-insensitive analysis)" % (", ".join(h.split("::", 1)[-1] for h in sorted(helpers)), len(dirty))
+
+
+def recursion(ctx, facts, roles, reach, extra, tag, fact_path=None):
     cg, _ = facts.callgraph()
     nodes = [k for k in reach if facts.body(k) is not None and facts.body(k).kind in ("fn", "closure")]
 
@@ -381,13 +430,13 @@ def recursion(ctx, facts, roles, reach, extra, tag):
         name = ",".join(role_name(roles, facts.body(r)) for r in roots[:4]) + ("…" if len(roots) > 4 else "")
         if cs & evaluator_keys:
             if s1 is None:
-                s1 = P.analyse(roles)[1]
+                s1, view_note = evaluator_sinks(ctx, facts, roles, fact_path)
             dirty = [s for s, v, how in s1 if v == "dirty"]
             # every parser call inside the cycle is an S1 sink by construction; the cycle descends in the rule tree iff they are all clean
             ctx.check(not dirty, "K2.recursion", "evaluator cycle (%d functions, %s)" % (len(cs), tag),
                       "the evaluator recursion re-enters the parser on a value that is not rule text (%s): recursion depth is no longer bounded by the nesting of the rule" % ", ".join(s.ident() for s in dirty[:3]),
                       where=dirty[0].body.where(dirty[0].bi) if dirty else "", fn=dirty[0].body.key if dirty else None, nontrivial=True,
-                      sample={"cycle": "evaluator", "functions": len(cs), "witness": "all %d parser call sites receive rule text only (C04 K1): each nested parse is a strict sub-term of the rule" % len(s1)})
+                      sample={"cycle": "evaluator", "functions": len(cs), "witness": "all %d parser call sites receive rule text only (C04 K1): each nested parse is a strict sub-term of the rule%s" % (len(s1), view_note)})
             # depth is bounded by the nesting of the rule; the *work* is bounded too only if no level evaluates an operand
             # twice (an operand evaluated twice at each of d nested levels costs 2^d evaluations: a hang at depth 64)
             if not getattr(ctx, "_once_done", {}).get(tag):
@@ -469,56 +518,211 @@ def structural_descent(facts, roles, f, cs):
     for b, bi, t in sites:
         for p in vps:
             tg = pr.op_tags(b, t["args"][p - 1])
-            if not tg or not all(x.endswith(".in") for x in tg):
+            if not tg or not all(x.endswith(".in") and ".built" not in x for x in tg):
                 return None
     return "structural descent: at all %d recursive call sites every JSON-valued argument lies strictly inside the array/object payload of a parameter (max size strictly decreases)" % len(sites)
 
 
+def tree_params(f):
+    """Parameters that carry (part of) a JSON tree: a value, one of the crate's own tree types, or a std container /
+    slice / iterator of them (`&[Value]`, `&Vec<Value>`, `slice::Iter<Value>`, `Option<&Value>` …)."""
+    out = []
+    local = [a for a in f.facts.adts if not a.startswith(("std::", "core::", "alloc::", "serde_json::", "phf::"))]
+    for i in range(1, f.arg_count + 1):
+        if f.kind == "closure" and i == 1:
+            continue
+        ty = f.local_ty(i)
+        if "serde_json::Value" in ty or "serde_json::Map" in ty or any(re.search(r"(^|[^\w:])%s($|[^\w:])" % re.escape(a), ty) for a in local):
+            out.append(i)
+    return out
+
+
 def structural_descent_mutual(facts, roles, fs, cs):
-    """Cycle f1→f2→…→f1: every call between members passes only strict sub-structures of the caller's parameters."""
+    """Size-change reading of a cycle f1→f2→…→f1.  Every call between members hands on, in each tree-carrying
+    parameter position, (a part of) a tree-carrying parameter of the caller: the largest tree in play never grows.  A
+    call is *strict* when every such argument lies strictly inside an array/object payload (or a field / variant payload
+    of one of the crate's tree types).  The cycle descends iff its calls without the strict ones form no cycle — how the
+    members split the work between them (who unwraps the array, who walks it, who handles one item) does not matter."""
     seeds = {}
+    members = {f.key: f for f in fs}
     for f in fs:
-        vps = value_params(f)
+        vps = tree_params(f)
         if not vps:
             return None
         for p in vps:
             seeds[(f.key, p)] = {"P"}
     pr = P.Prov(roles, seeds=seeds, mark_inner=True).run()
-    keys = {f.key for f in fs}
-    n = 0
-    for k in cs:
+    edges = []          # (caller root, callee, strict)
+
+    def root_of(k):
+        while "::{closure#" in k and k not in members:
+            k = k.rsplit("::{closure#", 1)[0]
+        return k
+
+    for k in sorted(cs):
         b = facts.body(k)
-
-        def check_call(args_tags):
-            return all(tg and all(x.endswith(".in") for x in tg) for tg in args_tags)
-
         for bi, t in b.calls():
             c = callee_of(t)
             targets = []
-            if c and c.get("key") in keys:
-                targets.append((c["key"], [pr.op_tags(b, a) for a in t["args"]]))
-            # members passed as callables to adaptors (`.map(Value::from)`): their parameter gets the other arguments' tags
-            for f2 in (t.get("callee") or {}).get("fwd", []) + [x.get("fn", {}).get("resolved") or {} for x in [op_const(a) or {} for a in t["args"]]]:
-                pass
+            if c and c.get("key") in members:
+                targets.append((c["key"], [pr.op_tags(b, a) for a in t["args"]], None))
+            # members passed as callables to adaptors (`.map(Value::from)`): their parameters receive the other arguments
             for a in t["args"]:
                 cc = op_const(a)
                 if cc and "fn" in cc:
                     r = cc["fn"].get("resolved") or cc["fn"]
-                    fw = [r] + [x for x in cc["fn"].get("fwd", [])]
-                    for r2 in fw:
-                        if r2.get("key") in keys:
-                            others = [pr.op_tags(b, x) for x in t["args"] if x is not a]
-                            targets.append((r2["key"], others))
-            for fk, tags in targets:
-                fb = facts.body(fk)
-                vps = value_params(fb)
-                rel = tags[:len(vps)] if len(tags) >= len(vps) else tags
-                if not rel or not check_call(rel):
-                    return None
-                n += 1
-    if n == 0:
+                    for r2 in [r] + list(cc["fn"].get("fwd", [])):
+                        if r2.get("key") in members:
+                            others = set()
+                            for x in t["args"]:
+                                if x is not a:
+                                    others |= pr.op_tags(b, x)
+                            targets.append((r2["key"], None, others))
+            for fk, tags, spread in targets:
+                vps = tree_params(members[fk])
+                rel = [tags[p - 1] for p in vps if p - 1 < len(tags)] if tags is not None else [spread] * len(vps)
+                if not rel or any((not tg) or any(x not in ("P", "P.in") for x in tg) for tg in rel):
+                    return None       # a tree that is not (part of) a parameter of the caller: built, computed, foreign
+                strict = all(all(x.endswith(".in") for x in tg) for tg in rel)
+                edges.append((root_of(k), fk, strict))
+    if not edges:
         return None
-    return "structural descent through %d call sites of the cycle: each passes only strict sub-structures (fields / variant payloads / collection elements) of the caller's tree-typed parameter" % n
+    weak = defaultdict(set)
+    for u, v, strict in edges:
+        if not strict:
+            weak[u].add(v)
+    color = {}
+
+    def dfs(n):
+        color[n] = 1
+        for m in weak.get(n, ()):
+            if color.get(m) == 1 or (m not in color and not dfs(m)):
+                return False
+        color[n] = 2
+        return True
+
+    for n in list(weak):
+        if n not in color and not dfs(n):
+            return None
+    ns = sum(1 for e in edges if e[2])
+    return "structural descent through %d call sites of the cycle: none hands on a tree that is not (part of) a tree-carrying parameter of its caller, %d go strictly inside an array/object payload (or a field / variant payload of a tree type), and the other %d form no cycle among themselves" % (len(edges), ns, len(edges) - ns)
+
+
+OPT_PAYLOAD_FN = re.compile(r"^std::(option::Option|result::Result)::<.*>::(map|map_or|map_or_else|and_then|is_some_and|is_ok_and|filter|inspect|then)$")
+
+
+KIND_PRED = {"is_null": "Null", "is_boolean": "Bool", "is_number": "Number", "is_string": "String", "is_array": "Array", "is_object": "Object"}
+
+
+def kind_predicate(facts, roles, body, x, kinds, depth=0):
+    """Truth value of a boolean expression that asks for the kind of a parameter whose kind is assumed (`kinds`:
+    parameter → variant name): serde_json's is_*() predicates, a private predicate function over them (read by
+    specialising it to the kinds of its arguments), negation.  None = not such a question."""
+    if depth > 4:
+        return None
+    x = strip_refs(x)
+    if x[0] == "const":
+        v = const_value(x[1])
+        return v if isinstance(v, bool) else None
+    if x[0] == "unop" and x[1] == "Not":
+        v = kind_predicate(facts, roles, body, x[2], kinds, depth)
+        return None if v is None else (not v)
+    if x[0] == "phi":
+        vs = {kind_predicate(facts, roles, body, y, kinds, depth) for y in x[2]}
+        return vs.pop() if len(vs) == 1 else None
+    if x[0] != "call" or not x[1]:
+        return None
+    m = re.match(r"^serde_json::Value::(is_\w+)$", x[1].get("path") or "")
+    if m:
+        a = strip_refs(x[2][0]) if x[2] else None
+        if m.group(1) in KIND_PRED and a is not None and a[0] == "arg" and a[1] in kinds:
+            return kinds[a[1]] == KIND_PRED[m.group(1)]
+        return None
+    if x[1].get("local"):
+        hb = facts.body(x[1]["key"])
+        if hb is None or hb.kind != "fn" or hb.local_ty(0) != "bool":
+            return None
+        ck = {}
+        for i, a in enumerate(x[2]):
+            a = strip_refs(a)
+            if a[0] == "arg" and a[1] in kinds:
+                ck[i + 1] = kinds[a[1]]
+        if not ck:
+            return None
+        try:
+            restrict = P.specialise_unit(roles, hb.key, lambda e, adt, _ck=ck: _ck.get(e[1]) if (adt == "serde_json::Value" and e[0] == "arg") else None,
+                                         assume_bool=lambda y, _ck=ck: kind_predicate(facts, roles, hb, y, _ck, depth + 1))
+        except Exception:
+            return None
+        with hb.restricted(restrict.get(hb.key, set())):
+            r = hb.trace(0)
+        return kind_predicate(facts, roles, hb, r, ck, depth + 1)
+    return None
+
+
+def value_kinds(facts, body, e, assign, depth=0):
+    """The JSON kinds (variant names) the value expression e can have, or None when it cannot be read.  Read from what
+    the value is — a parameter whose kind is assumed, a constructor (written as an aggregate or applied as a function,
+    here or in a private function that returns it, possibly inside Some/Ok), the payload a combinator hands to a
+    closure — not from where in the source it is built."""
+    if depth > 8:
+        return None
+    e = strip_refs(e)
+    if e[0] == "arg" and e[1] in assign:          # (x-traced: a parameter of the function, also when read through a closure capture)
+        return {assign[e[1]]}
+    if e[0] == "agg" and e[1].get("adt") == "serde_json::Value" and e[1].get("variant"):
+        return {e[1]["variant"]}
+    if e[0] == "call" and e[1] and re.match(r"^serde_json::Value::(Null|Bool|Number|String|Array|Object)$", e[1].get("path") or ""):
+        return {e[1]["path"].rsplit("::", 1)[1]}
+    if e[0] == "carg":
+        # a closure parameter: the payload of the Option/Result whose combinator runs the closure
+        cb = facts.body(e[1])
+        cr = cb.creator() if cb is not None else None
+        if cr is None or e[2] != 2:
+            return None
+        for bi, t in cr[0].calls():
+            if not OPT_PAYLOAD_FN.match(callee_path(t) or ""):
+                continue
+            if any(strip_refs(cr[0].trace(a))[0] == "agg" and strip_refs(cr[0].trace(a))[1].get("closure") == e[1] for a in t["args"][1:]):
+                return payload_kinds(facts, cr[0], cr[0].xtrace(t["args"][0]), assign, depth + 1)
+        return None
+    if e[0] == "phi":
+        out = set()
+        for x in e[2]:
+            r = value_kinds(facts, body, x, assign, depth + 1)
+            if r is None:
+                return None
+            out |= r
+        return out
+    if e[0] == "field" and e[2] == 0 and e[1][0] == "downcast" and e[1][2] in ("Some", "Ok"):
+        return payload_kinds(facts, body, e[1][1], assign, depth + 1)
+    return None
+
+
+def payload_kinds(facts, body, e, assign, depth=0):
+    """Kinds of the Some/Ok payload of an Option/Result expression (None/Err alternatives contribute nothing)."""
+    alts = PN.constructed(facts, body, e)
+    if alts is None or depth > 8:
+        return None
+    out = set()
+    for (b2, x) in alts:
+        x = strip_refs(x)
+        inner_assign = assign if b2 is body or b2.key.startswith(body.key) or body.key.startswith(b2.key) else {}
+        if x[0] == "agg" and x[1].get("variant") in ("Some", "Ok") and len(x[2]) == 1:
+            r = value_kinds(facts, b2, x[2][0], inner_assign, depth + 1)
+        elif x[0] == "agg" and x[1].get("variant") in ("None", "Err"):
+            continue
+        elif x[0] == "call" and x[1] and x[1]["path"] in ("std::option::Option::<T>::map", "std::result::Result::<T, E>::map") and len(x[2]) == 2:
+            f = strip_refs(x[2][1])
+            fn = (f[1].get("fn") or {}) if f[0] == "const" else {}
+            m = re.match(r"^serde_json::Value::(Null|Bool|Number|String|Array|Object)$", (fn.get("resolved") or fn).get("path") or fn.get("path") or "")
+            r = {m.group(1)} if m else None
+        else:
+            r = None
+        if r is None:
+            return None
+        out |= r
+    return out or None
 
 
 def variant_descent(facts, roles, f, cs):
@@ -536,23 +740,18 @@ def variant_descent(facts, roles, f, cs):
                 return _a[e[1]]
             return None
 
-        restrict = P.specialise_unit(roles, f.key, assume)
+        restrict = P.specialise_unit(roles, f.key, assume, assume_bool=lambda x, _a=assign: kind_predicate(facts, roles, f, x, _a))
         outs = set()
         for b, bi, t in rec_sites(facts, f, cs):
             if bi not in restrict.get(b.key, set()):
                 continue
             nxt = []
             for p in vps:
-                e = strip_refs(b.xtrace(t["args"][p - 1]))
-                if e[0] == "arg" and e[1] in assign:
-                    nxt.append(assign[e[1]])   # a whole parameter handed on (possibly in the other position): its kind is known
-                elif e[0] == "agg" and e[1].get("adt") == "serde_json::Value":
-                    nxt.append(e[1]["variant"])
-                else:
-                    nxt.append(None)
+                ks = value_kinds(facts, b, b.xtrace(t["args"][p - 1]), assign)
+                nxt.append(sorted(ks) if ks else None)
             if None in nxt:
                 return None
-            outs.add(tuple(nxt))
+            outs.update(itertools.product(*nxt))
         edges[combo] = outs
     # acyclic?
     color = {}
